@@ -19,7 +19,7 @@ pub static DEF: PropDef = PropDef {
     assumptions: &[
         "the adversary holds its own signing key only; every row it did not author is reused byte for byte",
     ],
-    cases: |t| t.pick(60, 1200),
+    cases: |t| t.pick(200, 3000),
     shards: |t| t.pick(10, 16),
     case_budget_s: |_| 240,
     min_conclusive: |t| t.pick(20, 400),
